@@ -69,8 +69,8 @@ impl Prop for C14 {
     fn fuzz_decode(bytes: &[u8]) -> Option<Case> {
         crate::fuzzdec::c14(bytes)
     }
-    const RULE: &'static str = "clean texts of 0-6 words x 1-5 characters (code-point mode: arbitrary non-whitespace code points; grapheme mode: closed-pool clusters; one case in eight mixes in segmentation hazards - lone regional indicators, jamo, ZWJ, combining marks - where only the clauses that do not re-segment the corrupted text are asserted) x (p_ins, p_del) from {0, 0.05, 0.3, 0.7, 1}^2 minus (0,0) plus uniform draws x seed x use_graphemes x corrupted part x byte tokenizer with generated prefix/suffix; run through preprocessing(WhitespaceCorruption) and train_task(WhitespaceCorrection). Oracle: untouched part identical, same non-whitespace sequence, output clean, repair(operations(corrupted, original)) recovers the original, one label per character plus -1 on special positions, determinism in (text, seed) also on a fresh instance, p_del = 0 / p_ins = 0 laws, (0,0) rejected. Non-trivial: the output differs from the input by >= 1 insertion and >= 1 deletion and the text has a multi-byte character. Distinct = distinct serialised case.";
-    const ESSENTIAL: &'static [&'static str] = &["inserted", "deleted", "inserted+deleted", "p_del_0", "p_ins_0", "unchanged", "graphemes", "code_points", "prefix_suffix", "rejected_0_0", "unstable_mixed_free"];
+    const RULE: &'static str = "clean texts of 0-6 words x 1-5 characters (one in 40: up to 160 words) (code-point mode: arbitrary non-whitespace code points; grapheme mode: closed-pool clusters; one case in eight mixes in segmentation hazards - lone regional indicators, jamo, ZWJ, combining marks - where only the clauses that do not re-segment the corrupted text are asserted) x (p_ins, p_del) from {0, 0.05, 0.3, 0.7, 1}^2 minus (0,0) plus uniform draws x seed x use_graphemes x corrupted part x byte tokenizer with generated prefix/suffix; run through preprocessing(WhitespaceCorruption) and train_task(WhitespaceCorrection). Oracle: untouched part identical, same non-whitespace sequence, output clean, repair(operations(corrupted, original)) recovers the original, one label per character plus -1 on special positions, determinism in (text, seed) also on a fresh instance, p_del = 0 / p_ins = 0 laws, (0,0) rejected. Non-trivial: the output differs from the input by >= 1 insertion and >= 1 deletion and the text has a multi-byte character. Distinct = distinct serialised case.";
+    const ESSENTIAL: &'static [&'static str] = &["inserted", "deleted", "inserted+deleted", "p_del_0", "p_ins_0", "unchanged", "graphemes", "code_points", "prefix_suffix", "rejected_0_0", "unstable_mixed_free", "longer_than_256_characters"];
 
     fn budget(tier: Tier) -> Budget {
         match tier {
@@ -83,10 +83,12 @@ impl Prop for C14 {
         let p = || prop_oneof![4 => select(vec![0.0f64, 0.05, 0.3, 0.7, 1.0]), 1 => 0.0f64..=1.0];
         (any::<bool>(), special_cfg())
             .prop_flat_map(move |(g, special)| {
+                // one text in 40 is long (up to ~600 characters: beyond 256, the block sizes of
+                // chunked implementations)
                 let text = if g {
-                    prop_oneof![7 => gen::clean_text(true, 6, 5), 1 => gen::hazard_clean_text(5, 4)].boxed()
+                    prop_oneof![35 => gen::clean_text(true, 6, 5), 5 => gen::hazard_clean_text(5, 4), 1 => gen::clean_text(true, 160, 5)].boxed()
                 } else {
-                    gen::clean_text(false, 6, 5)
+                    prop_oneof![39 => gen::clean_text(false, 6, 5), 1 => gen::clean_text(false, 160, 5)].boxed()
                 };
                 (text, p(), p(), any::<u64>(), any::<bool>(), byte_kind())
                     .prop_map(move |(text, p_ins, p_del, seed, corrupt_target, kind)| Case {
@@ -115,6 +117,7 @@ impl Prop for C14 {
         let mut out = Outcome::new();
         let g = c.graphemes;
         out.label(if g { "graphemes" } else { "code_points" });
+        out.label_if(c.text.chars().count() > 256, "longer_than_256_characters");
         // grapheme mode outside the segmentation-stable domain: texts without a mixed cluster are
         // inside the quantifier; the clauses that do not re-segment the corrupted text are
         // asserted there (untouched part, determinism, same non-whitespace code points,
